@@ -57,6 +57,8 @@ DOCUMENTED_DEFAULTS = {
 # □ is the attribute on the writer side and the document value on the reader side.
 INVERSE_PAIRS = {
     ("□", "□"): "identity",
+    ("□", "dict(□)"): "shallow copy of a JSON object",
+    ("□", "list(□)"): "shallow copy of a JSON array",
     ("□", "(□ or None)"): "label: empty/None label is stored as absent and read back as None",
     ("□", "bool(□)"): "writer-side validator asserts bool (final next to a label, bootable)",
     ("bool(□)", "bool(□)"): "bool both ways",
@@ -387,8 +389,23 @@ def r_composite(model, rep, qname, expected_children):
             rep.ob("R-COMPOSITE", "%s:condition:%s" % (qname, a), okg, site=wcx.site(wcx.node),
                    msg="" if okg else "self.%s is written under %s but read under %s" % (a, list(wmap[a]) or "no condition", list(rmap[a]) or "no condition"))
     extra = (set(wmap) | set(rmap)) - set(expected_children)
-    rep.ob("R-COMPOSITE", "%s:children" % qname, not extra, site=wcx.site(wcx.node), trivial=True,
-           msg="" if not extra else "unexpected additional section objects %s (rule table out of date)" % sorted(extra))
+    # a section object the table does not know: symmetric (written and read under the same condition) is fine, and so is a
+    # write-only object whose class has no reader (a compatibility section like [general]); anything else loses data
+    bad_extra = []
+    cls_ = model.cls(qname)
+    for a in sorted(extra):
+        if a in wmap and a in rmap and wmap[a] == rmap[a]:
+            continue
+        if a in wmap and a not in rmap:
+            ia = cls_.init_attrs(model).get(a)
+            k = ia.kind(model) if ia is not None else None
+            if isinstance(k, tuple):
+                lk = k[1].lookup("deserialize")
+                if lk is None or lk[0].qname == "common.MetadataBase":      # only the abstract stub
+                    continue
+        bad_extra.append(a)
+    rep.ob("R-COMPOSITE", "%s:children" % qname, not bad_extra, site=wcx.site(wcx.node), trivial=True,
+           msg="" if not bad_extra else "section object(s) %s are not written and read back under the same condition" % bad_extra)
     # reader order: header first, release before base_product (their gates / conditions depend on them)
     order = [a for a, g, ev in rch]
     ok = bool(order) and order[0] == "header"
